@@ -23,7 +23,10 @@ pub fn run(ctx: &Ctx) -> Report {
     let mut xlog: std::collections::BTreeMap<String, J> = Default::default();
     for e in es.iter().filter(|e| ctx.wants(e)) {
         // canonical routes only (route equivalence is C12's business)
-        if !(e.route == "new" || e.route == "new+new") {
+        // (plus the clone routes of the AES / Kuznyechik wrappers: their hand-written Clone differs per
+        // detection outcome and backend)
+        let wrapper = e.family == "aes" || e.family == "kuznyechik";
+        if !(e.route == "new" || e.route == "new+new" || (wrapper && (e.route == "clone" || e.route == "clone+clone"))) {
             continue;
         }
         // AES, Kuznyechik, Serpent at full volume; everything else at a quarter
